@@ -49,7 +49,7 @@ def scalar_cases(pk, modname, names, prop="C01"):
             base[n] = ("const", False)
         elif n in ("rtol", "atol"):
             # C01 only demands the tolerance-free core of isclose (DESIGN C01); C12 poses the tolerance clauses
-            base[n] = ("const", 0) if prop == "C01" else "nonneg"
+            base[n] = ("const", 0)
         else:
             base[n] = "real"
     cases = [("", base)]
